@@ -24,6 +24,8 @@ type HistoryOpts struct {
 	TxPerBlock  int           // upper bound of random ordinary txs offered per block (default 3)
 	ShortEpochs bool          // shrink the validation timeline so that epochs complete within ~45 blocks
 	WithFlips   bool          // authors submit flips between ceremonies
+	NoOnline    bool          // nobody ever goes online (the chain stays in god mode: only the god address may propose)
+	MoreFlips   bool          // ... up to the maximum the identity may submit (extra flips of Verified / Human authors)
 	BlockStep   time.Duration // virtual time between blocks (default 20 s)
 	EmptyEvery  int           // every k-th block is proposed from an empty mempool view? (0 = never) – handled by caller
 	Participate float64       // probability that a user takes part in a ceremony (default 0.75); god always does
@@ -117,7 +119,11 @@ func (h *History) OfferTxs(b int) {
 		if h.O.WithFlips {
 			for i := range w.Keys {
 				id := A.App.State.GetIdentity(w.Addrs[i])
-				if (i == 0 || id.RequiredFlips > 0) && len(id.Flips) < 3 && r.Intn(3) == 0 {
+				lim := 3
+				if h.O.MoreFlips {
+					lim = int(id.GetMaximumAvailableFlips())
+				}
+				if (i == 0 || id.RequiredFlips > 0) && len(id.Flips) < lim && (r.Intn(3) == 0 || h.O.MoreFlips && r.Intn(2) == 0) {
 					c, _ := ipfs.NewMemoryIpfsProxy().Cid([]byte(fmt.Sprint("flip", ep, i, len(id.Flips), b)))
 					h.try(i, fmt.Sprint("flip", b), &types.Transaction{Type: types.SubmitFlipTx, Payload: attachments.CreateFlipSubmitAttachment(c.Bytes(), uint8(len(id.Flips)))})
 				}
@@ -141,7 +147,9 @@ func (h *History) OfferTxs(b int) {
 			case 1:
 				h.try(i, fmt.Sprint("undelegate", b, j), &types.Transaction{Type: types.UndelegateTx})
 			case 2:
-				h.try(i, fmt.Sprint("online", b, j), OnlineTx(r.Intn(2) == 0))
+				if !h.O.NoOnline {
+					h.try(i, fmt.Sprint("online", b, j), OnlineTx(r.Intn(2) == 0))
+				}
 			case 3:
 				h.try(i, fmt.Sprint("replenish", b, j), &types.Transaction{Type: types.ReplenishStakeTx, To: &to, Amount: Dna(int64(r.Intn(50)))})
 			case 4:
